@@ -136,7 +136,8 @@ def run(ctx):
     c03.run(ctx)
     for o in ctx.obligations[before:]:
         o.rule = 'R06i'
-    from .c04 import accumulation_rule, leaf_lists_rule, lookup_key_rule
+    from .c04 import accumulation_rule, leaf_lists_rule, lookup_key_rule, uniquify_rule
+    uniquify_rule(ctx, 'R06g')
     lookup_key_rule(ctx, 'R06h', 'SuperNet')
     leaf_lists_rule(ctx, 'R06g', 'SuperNet')
     accumulation_rule(ctx, 'R06f', 'SuperNet._get_single_cost', sgc)
